@@ -800,6 +800,11 @@ fn signature(s: &QSpec, op: &str, budget: Option<u64>, failure: &str) -> String 
     format!("{PROP}/{}/{}/{}/{}/{}", s.kind_name(), s.shape_name(), op, budget_class(budget), failure)
 }
 
+/// The one place where a join query reaches TurDB (run and replay share it).
+fn run_query(db: &TestDb, _spec: &QSpec, sql: &str, _budget: Option<u64>) -> Res {
+    db.exec(sql)
+}
+
 fn set_budget(db: &TestDb, b: u64) -> Result<(), String> {
     match db.exec(&format!("PRAGMA join_memory_budget = {b}")) {
         Res::Done(d) if d.contains(&format!("\"{b}\"")) => Ok(()),
@@ -888,7 +893,7 @@ fn run_db(pass: &str, ctx: &Ctx, rep: &mut Reporter, t: &Tabs, v: Variant, prep:
                 w.drain();
             }
             let t_exec = std::time::Instant::now();
-            let res = db.exec(&p.sql);
+            let res = run_query(&db, &p.spec, &p.sql, *b);
             if ctx.opt("timing").is_some() && t_exec.elapsed().as_millis() > 50 {
                 eprintln!("   exec {:?} {}", t_exec.elapsed(), vcore::util::clip(&p.sql, 120));
             }
@@ -977,14 +982,14 @@ fn replay_sql_case(ctx: &Ctx, case: &Value, rep: &mut Reporter) {
     let prep = prepare(&t, std::slice::from_ref(&s), pass == "pad");
     let p = &prep[0];
     let op = plan_shape(&explain(db.db(), &p.sql));
-    let first = if oracle == "budgets" { Some(db.exec(&p.sql)) } else { None };
+    let first = if oracle == "budgets" { Some(run_query(&db, &s, &p.sql, None)) } else { None };
     if let Some(b) = budget {
         if let Err(e) = set_budget(&db, b) {
             rep.violation(PROP, "pragma", &format!("{PROP}/pragma/{}/error", budget_class(Some(b))), || case.clone(), "PRAGMA join_memory_budget accepts any usize", &e);
             return;
         }
     }
-    let res = db.exec(&p.sql);
+    let res = run_query(&db, &s, &p.sql, budget);
     rep.bulk(1, 1);
     if oracle == "pragma" {
         return;
@@ -1224,7 +1229,10 @@ fn pass_pad(ctx: &Ctx, rep: &mut Reporter, case_no: &mut u64) {
             eprintln!("pad: model prepared in {:?}", t0.elapsed());
         }
         rep.begin_case(&case_json("pad", &t, v, &specs[0], None, "model", "").to_string());
+        let before = rep.evaluations();
         run_db("pad", ctx, rep, &t, v, &prep, &BUDGETS, true);
+        let _ = before;
+        rep.note("pass pad: counter sql_join_files_created_during_query = directory entries created in TMPDIR, the scratch root and the database directory while a 300-row padded join runs under each budget. When it is 0 the SQL join path did not spill under any budget (at the commit this check was written for, PRAGMA join_memory_budget is stored by src/database/pragma.rs:145-162 and read by nothing; joins are materialised in memory by src/database/database.rs:2112-3460); the spilling operator GraceHashJoinState is then covered by pass op only (op_spill_files_seen).");
         if ctx.opt("timing").is_some() {
             eprintln!("pad: variant {} done at {:?}", v.name(), t0.elapsed());
         }
